@@ -44,6 +44,16 @@ type Lake struct {
 	Eng  *vstore.Engine
 	Root *lake.Root
 	API  lakeapi.Interface
+	// Store, if set, is used instead of Eng to read lake metadata (lakes on
+	// a real file system, e.g. behind the service).
+	Store storage.Engine
+}
+
+func (l *Lake) engine() storage.Engine {
+	if l.Store != nil {
+		return l.Store
+	}
+	return l.Eng
 }
 
 func NewEngine(s *vstore.Store, client string, hook vstore.Hook) *vstore.Engine {
@@ -199,7 +209,7 @@ func (l *Lake) CommitPath(ctx context.Context, pool, branch string) ([]ksuid.KSU
 	if commit == ksuid.Nil {
 		return nil, nil
 	}
-	cs, err := commits.OpenStore(l.Eng, zap.NewNop(), p.Path.JoinPath(lake.CommitsTag))
+	cs, err := commits.OpenStore(l.engine(), zap.NewNop(), p.Path.JoinPath(lake.CommitsTag))
 	if err != nil {
 		return nil, err
 	}
